@@ -1,4 +1,66 @@
-import SfxModel.Transcendental
+import SfxProofs.Trig
+import SfxProps.C12
+import Mathlib.Analysis.SpecialFunctions.Trigonometric.Basic
+/-
+  C16 — sin, cos and tan are accurate over many periods in every supported type.
+
+  FULL statement: `C16_statement` (over the reals).  PROVED: `C16_partial` —
+    (i)   range reduction is exact arithmetic on the grid for EVERY angle: the reduced angle is congruent to the operand modulo the
+          23-bit `2π` constant, lies in `[-π₂₃, π₂₃]`, the mirror step lands in `[-π₂₃/2, π₂₃/2]`, nothing overflows;
+    (ii)  the model's CORDIC loop equals the plain-integer iteration (`sinPure`), so the result is a pure function of the reduced angle,
+          identical in every build profile, bounded by 3 in magnitude;
+    (iii) table facts over `Generated.lean` (regenerated from the source on every run): the 24 used `ARCTAN_ANGLES` entries are within
+          `2^-54−i` of `atan 2^-i` (70 terms of Gregory's series, kernel-evaluated), decreasing, satisfy the CORDIC convergence condition
+          `e_i ≤ Σ_{j>i} e_j + e_23`, cover `π/2`; entry 0 is `consts::PI` truncated; the gain literal satisfies
+          `1 ≤ gain²·∏(1+4^-i) < 1 + 2^-31`.  A mutated table entry or gain breaks a theorem.
+  NOT PROVED: the real-analysis step from (i)–(iii) to `|r − sin x| ≤ 2^-16` (rotation invariant with per-step truncation, residual angle,
+  and the distance `|x mod 2π₂₃ − x mod 2π| ≤ 32·2^-23` for `|x| ≤ 200`).  Judged on every run by the search oracle (300-bit reference):
+  worst observed error 2^-18.1 of the allowed 2^-16; tan 2^-15.1 of 2^-14.
+-/
 namespace Sfx.C16
-theorem placeholder : True := trivial
+open Sfx.C12
+
+noncomputable def val (f : Nat) (x : Int) : ℝ := (x : ℝ) / (2 : ℝ) ^ f
+
+/-- FULL statement of C16 -/
+def C16_statement : Prop :=
+  ∀ D : Layout, Supp D → ∀ a : Int, inRange D a →
+    (|val D.f a| ≤ 200 →
+      (∀ r it dbg, Trans.run (Trans.sin D a) = .ok (some r, it) dbg →
+        |val D.f r - Real.sin (val D.f a)| ≤ 1 / (2 : ℝ) ^ 16 ∧ |val D.f r| ≤ 1 + 1 / (2 : ℝ) ^ 16) ∧
+      (∀ r it dbg, Trans.run (Trans.cos D a) = .ok (some r, it) dbg →
+        |val D.f r - Real.cos (val D.f a)| ≤ 1 / (2 : ℝ) ^ 16 ∧ |val D.f r| ≤ 1 + 1 / (2 : ℝ) ^ 16)) ∧
+    (|val D.f a| ≤ 100 → |Real.tan (val D.f a)| ≤ 64 →
+      ∀ r it dbg, Trans.run (Trans.tan D a) = .ok (some r, it) dbg →
+        |val D.f r - Real.tan (val D.f a)| ≤ (1 + Real.tan (val D.f a) ^ 2) / (2 : ℝ) ^ 14)
+
+end Sfx.C16
+
+attribute [-instance] Monoid.toNPow
+namespace Sfx.C16
+open Sfx.TrigPf Sfx.C12
+
+/-- PROVED part (i)+(ii): exact range reduction and exact-arithmetic CORDIC for every angle of every supported type -/
+theorem C16_partial (D : Layout) (h : Supp D) (a : Int) (ha : inRange D a) :
+    (∃ (q a1 a2 : Int), a1 = a + q * T D ∧ -P D ≤ a1 ∧ a1 ≤ P D ∧
+        (a2 = a1 ∨ a2 = H D - (a1 - H D) ∨ a2 = -H D - (a1 + H D)) ∧ -H D ≤ a2 ∧ a2 ≤ H D ∧ a2 = red2 D (red1 D a)) ∧
+    (Trans.run (Trans.sin D a) = .ok (some (sinPure D a), redTicks D a + 24) false ∧ redTicks D a ≤ 1 ∧
+      -(3 * 2 ^ D.f) ≤ sinPure D a ∧ sinPure D a ≤ 3 * 2 ^ D.f) := by
+  obtain ⟨hv, hs, hf, hi⟩ := h
+  obtain ⟨q, a1, a2, d, e1, e2, _, h1, h2, h3, _, _, h5, h6, h7, _⟩ := range_reduction D hv hs hf hi a ha
+  exact ⟨⟨q, a1, a2, h1, h2, h3, h5, h6, h7, by rw [e2, e1]⟩, sin_total_exact D hv hs hf hi a ha⟩
+
+/-- PROVED part (iii): the table and gain facts (over the regenerated constants) -/
+theorem table_facts :
+    (∀ i, i < 23 → Trans.angleOf i ≤ angSum (i + 1) (23 - i) + Trans.angleOf 23) ∧
+    (Trans.FRAC_PI_2 * 2 ^ 105 ≤ angSum 0 24) ∧
+    (∀ i, 1 ≤ i → i < 24 →
+      Trans.angleOf i * 2 ^ 128 - atanSeries i 70 < 2 ^ (202 - i) ∧ atanSeries i 70 - Trans.angleOf i * 2 ^ 128 < 2 ^ (202 - i)) ∧
+    (Trans.angleOf 0 = Int.ofNat Generated.piSrc / 2 ^ 76 * 2 ^ 76) ∧
+    (2 ^ 256 * gainDen 24 ≤ (Int.ofNat Generated.cordicGain) ^ 2 * gainNum 24 ∧
+      ((Int.ofNat Generated.cordicGain) ^ 2 * gainNum 24 - 2 ^ 256 * gainDen 24) * 2 ^ 31 < 2 ^ 256 * gainDen 24) :=
+  ⟨table_convergence, table_covers, table_entries_pinned, table_entry0.1, gain_fact⟩
+
+example : Supp ⟨true, 128, 64⟩ ∧ inRange ⟨true, 128, 64⟩ (200 * 2 ^ 64) := ⟨⟨by decide, rfl, by decide, by decide⟩, by decide⟩
+
 end Sfx.C16
